@@ -98,23 +98,16 @@ def dense_terms(model, terms, offset=0.0):
     dims = [b.nbas for b in model.basis]
     D = int(np.prod(dims))
     H = np.zeros((D, D), dtype=complex)
+    from renormalizer.model import Op
     for t in terms:
         mats = [np.eye(d, dtype=complex) for d in dims]
-        # operators on the same site multiply in the written order
-        for sym, dof, in zip(t.split_symbol, t.dofs):
-            from renormalizer.model import Op
-            b = model.dof_to_basis[dof]
-            isite = model.dof_to_siteidx[dof]
-            if getattr(b, "multi_dof", False):
-                continue
-            mats[isite] = mats[isite] @ np.asarray(b.op_mat(Op(sym, dof)), dtype=complex)
-        # multi-dof sites: group symbols per site and ask the basis for the grouped matrix
+        # symbols are grouped per site keeping their written order; the local matrix of a site is, by definition of the
+        # property, basis.op_mat of that grouped one-site operator (that op_mat of a product symbol is the ordered matrix
+        # product of its factors is a contract of C16, not of the construction)
         for isite, b in enumerate(model.basis):
-            if getattr(b, "multi_dof", False):
-                syms = [(s, d) for s, d in zip(t.split_symbol, t.dofs) if model.dof_to_siteidx[d] == isite]
-                if syms:
-                    from renormalizer.model import Op
-                    mats[isite] = np.asarray(b.op_mat(Op(" ".join(s for s, _ in syms), [d for _, d in syms])), dtype=complex)
+            syms = [(s_, d_) for s_, d_ in zip(t.split_symbol, t.dofs) if model.dof_to_siteidx[d_] == isite]
+            if syms:
+                mats[isite] = np.asarray(b.op_mat(Op(" ".join(s_ for s_, _ in syms), [d_ for _, d_ in syms])), dtype=complex)
         m = np.ones((1, 1), dtype=complex)
         for a in mats:
             m = np.kron(m, a)
